@@ -70,6 +70,13 @@ var paramMutations = []func(r *Rng, s string) string{
 	func(r *Rng, s string) string { return strings.Replace(s, "quoted-printable", "base64", 1) },
 	func(r *Rng, s string) string { return strings.Replace(s, "attachment", "inline", 1) },
 	func(r *Rng, s string) string { return strings.Replace(s, "attachment", "unknown-disposition", 1) },
+	// RFC 5322 group syntax in address fields (valid, and valid-but-empty)
+	func(r *Rng, s string) string { return "undisclosed-recipients:;" },
+	func(r *Rng, s string) string { return "group: " + s + ";" },
+	func(r *Rng, s string) string { return "empty:;, " + s },
+	func(r *Rng, s string) string { return s + ", " + s },
+	func(r *Rng, s string) string { return "(comment only)" },
+	func(r *Rng, s string) string { return "<>" },
 }
 
 // parseEMLAny parses through one of the three entry points (string, reader, file), chosen by k
@@ -155,6 +162,10 @@ func mutateEML(r *Rng, eml []byte) []byte {
 }
 
 var emlCorpus = []string{
+	"From: undisclosed-senders:;\r\nTo: d@e.f\r\nSubject: x\r\n\r\nbody\r\n",
+	"From: a@b.c\r\nTo: undisclosed-recipients:;\r\nCc: empty:;\r\nBcc: g: x@y.z;\r\nSubject: x\r\n\r\nbody\r\n",
+	"From: a@b.c, d@e.f\r\nTo: d@e.f\r\nDate: not a date\r\n\r\nbody\r\n",
+	"From: \r\nTo: \r\nCc: ,\r\nSubject: \r\n\r\n",
 	"From: a@b.c\r\nTo: d@e.f\r\nSubject: x\r\nMIME-Version: 1.0\r\nContent-Type: multipart/mixed; boundary=B\r\n\r\n--B\r\nContent-Type: text/plain; charset=UTF-8\r\nContent-Transfer-Encoding: 7bit\r\n\r\nhi\r\n--B\r\nContent-Type: text/plain\r\nContent-Disposition: attachment; filename=\r\n\r\ndata\r\n--B--\r\n",
 	"From: a@b.c\r\nTo: d@e.f\r\nContent-Type: multipart/mixed; boundary=B\r\n\r\n--B\r\nContent-Type: text/plain\r\nContent-Disposition: attachment; filename=x\r\n\r\ndata\r\n--B--\r\n",
 	"From: a@b.c\r\nTo: d@e.f\r\nContent-Type: multipart/mixed; boundary=B\r\n\r\n--B\r\nContent-Type: text/plain\r\nContent-Disposition: attachment; filename=\"\r\n\r\ndata\r\n--B--\r\n",
